@@ -58,6 +58,10 @@ func (w *world) forward(name string) {
 	v := w.latest[name] + 1
 	w.latest[name] = v
 	b := []byte(fmt.Sprintf("%s#v%d#%d", name, v, w.inst))
+	if w.inst%4 == 0 && v >= 3 {
+		// the same bytes as an EARLIER (not the latest) version under a new number: a version is its number
+		b = w.versions[name][v-2]
+	}
 	if w.versions[name] == nil {
 		w.versions[name] = map[uint32][]byte{}
 	}
@@ -157,7 +161,7 @@ func TestC11(t *testing.T) {
 		realServer(t, r)
 	}
 	r.Require("polls_ok", "polls_failed", "changes_forward", "changes_backward", "changes_inside_window", "expired_with_handle_polls",
-		"cadence_rounds", "cadence_cases_with_slow_service", "parked_cache_write_cases", "ticker_overlap_cases", "coalesced_refreshes", "coalesced_with_cancelled_leader", "coalesced_after_a_joiner_gave_up", "polls_with_cache_down", "real_server_refreshes", "final_convergence_checks")
+		"cadence_rounds", "cadence_cases_with_slow_service", "cadence_cases_with_an_outage", "parked_cache_write_cases", "ticker_overlap_cases", "coalesced_refreshes", "coalesced_with_cancelled_leader", "coalesced_after_a_joiner_gave_up", "polls_with_cache_down", "real_server_refreshes", "final_convergence_checks")
 	r.Rule("A: seeded histories of 8-25 events over 2-5 secrets (declared, looked-up, expiry-aged with a live unread handle): service changes (new version / re-activate an older one / bursts), Refresh with per-request failure and hold scripts (service changes inside the held window), sleeps up to several expiry ages, handle probes; oracle after every Refresh on the cache payload and at probes on handles. Plus cadence cases (background poller, instant service), coalescing cases (K refreshes while the first request is parked) and B: real server+client histories. Distinct = (event kind, poll outcome, backwards?, held?, expiry shape)")
 }
 
@@ -470,15 +474,26 @@ func cadenceCase(t *testing.T, r *evid.Run, idx int) {
 			}
 			r.Count("cadence_cases_with_slow_service", 1)
 		}
-		st, err := setec.NewStore(context.Background(), setec.StoreConfig{Client: svc, Secrets: []string{"a", "b"}, PollInterval: interval, Logf: func(string, ...any) {}})
-		if err != nil {
-			t.Fatalf("NewStore: %v", err)
-		}
 		eff := interval
 		if eff == 0 {
 			eff = time.Hour // documented default
 		}
 		start := time.Now()
+		if svc.Behave == nil && rng.IntN(2) == 0 {
+			// an outage of several intervals in the middle: the polls fail, one per interval all the same
+			from, to := time.Duration(2+rng.IntN(3))*eff, time.Duration(6+rng.IntN(4))*eff
+			svc.Behave = func(q *fakesvc.Req) fakesvc.Behaviour {
+				if since := time.Since(start); q.Cond && since >= from && since < to {
+					return fakesvc.Behaviour{Fail: fakesvc.ErrInjected}
+				}
+				return fakesvc.Behaviour{}
+			}
+			r.Count("cadence_cases_with_an_outage", 1)
+		}
+		st, err := setec.NewStore(context.Background(), setec.StoreConfig{Client: svc, Secrets: []string{"a", "b"}, PollInterval: interval, Logf: func(string, ...any) {}})
+		if err != nil {
+			t.Fatalf("NewStore: %v", err)
+		}
 		time.Sleep(12 * eff)
 		st.Close()
 		// round instants = distinct start times of conditional requests
